@@ -18,7 +18,7 @@ RULE = ("random deposit histories: fields from {0,1,2^32-1 / 0x00..,0xff.. / nil
         "a case is non-trivial when it contains >= 2 deposits; distinct = distinct op list")
 ASSUMPTIONS = ["deposit counts on chain are consecutive from 0 (the contract guarantees it)",
                "Keccak-256 modelled as an injective node function in the theorems that read the stored nodes (restart)",
-               "the EVM/Solidity side is represented by a hand transcription of DepositContractBase (Model/Contracts.v)"]
+               "the EVM/Solidity side is a hand transcription (Model/Contracts.v) validated on every run against the deployed bridge / GlobalExitRootV2 bytecode in go-ethereum's simulated backend (props/evm_common.py): a sampled correspondence, not a proof about EVM bytecode"]
 coq_case = bc.coq_case
 distribution = bc.distribution
 
@@ -43,3 +43,10 @@ LEVEL_TEXT = ("Kernel-checked theorems (abstract hash, all indices < 2^32, no bo
 LEVEL_NOTE = ("Trusted: Coq kernel + vm_compute; Gallina Keccak (cross-checked); hand transcription of AddLeaf/initCache/Bridge.Hash and of the "
               "Solidity DepositContract; SQLite; the theorems that read stored nodes assume an injective node hash (stated hypothesis).")
 TECHNIQUE = "Coq proof by induction over tree height (frontier invariant) + differential correspondence via vm_compute"
+
+# Model/Contracts.v (the Solidity transcription) is validated on every run against the deployed contract bytecode
+import evm_common
+
+
+def extra_checks(chk):
+    evm_common.run_evm_part(chk)
